@@ -175,6 +175,9 @@ def run(ctx):
         else:
             ctx.holds("R2", C, jm.where(obj_try), "retry handlers catch exactly {TimeoutError, RuntimeError}", key="handler-set")
 
+    # failed designs may be collected in a local list first; the accounting rule below demands that they are published
+    local_lists = {access_path(s_.targets[0]) for s_ in stmts_of(fn) if isinstance(s_, ast.Assign) and len(s_.targets) == 1
+                   and isinstance(s_.targets[0], ast.Name) and isinstance(s_.value, ast.List) and not s_.value.elts}
     # R2 per retry-handler path
     ok_r2 = True
     for h, hp in retry_handlers:
@@ -191,7 +194,7 @@ def run(ctx):
                     new_fail = (i, s.targets[0].id)
                 for c in calls_in(s):
                     pth = access_path(c.func) or ""
-                    if pth.endswith(".problem.failed.append") and c.args:
+                    if (pth.endswith(".problem.failed.append") or (pth.endswith(".append") and pth[:-7] in local_lists)) and c.args:
                         a = c.args[0]
                         if isinstance(a, ast.Name) and new_fail and a.id == new_fail[1]:
                             appended = i
@@ -231,6 +234,50 @@ def run(ctx):
         ctx.holds("R2", C, jm.where(retry_handlers[0][0]), "on every retry-handler path: failed copy of the failing vector appended, then vector re-sampled from gen_vector(problem.parameters), state non-EVALUATED, continue", key="handler-effects")
     elif not retry_handlers:
         ctx.violated("R2", C, jm.where(obj_try), "no handler retries (ends every path with `continue`): transient failures are not retried", key="handler-effects")
+
+    # accounting over whole paths: when evaluate() is left (return or raise), every transient failure of this call has
+    # its copy in problem.failed - directly, or through a local list that was published with extend()
+    retry_nodes = {id(h) for h, _ in retry_handlers}
+    bad_acc = None
+    n_acc = 0
+    for p in jm.paths:
+        fails = sum(1 for e in p.events if e.kind == "catch" and id(e.node) in retry_nodes)
+        if fails == 0:
+            continue
+        n_acc += 1
+        pending = {}
+        published = 0
+        flushed = {}
+        for e in p.events:
+            if e.kind not in ("stmt", "return"):
+                continue
+            for c in calls_in(e.node):
+                pth = access_path(c.func) or ""
+                if pth.endswith(".problem.failed.append") and c.args:
+                    published += 1
+                elif pth.endswith(".append") and pth[:-7] in local_lists and c.args:
+                    pending[pth[:-7]] = pending.get(pth[:-7], 0) + 1
+                elif pth.endswith(".problem.failed.extend") and c.args and access_path(c.args[0]) in local_lists:
+                    L = access_path(c.args[0])
+                    published += pending.get(L, 0) - flushed.get(L, 0) if flushed.get(L, 0) <= pending.get(L, 0) else 0
+                    if flushed.get(L, 0):
+                        published += flushed[L]          # the same entries are published again (duplicates)
+                    flushed[L] = pending.get(L, 0)
+                elif (pth.endswith(".problem.failed.extend") or pth.endswith(".problem.failed.clear") or pth.endswith(".problem.failed.pop")
+                      or pth.endswith(".problem.failed.remove")):
+                    published = None
+                    break
+            if published is None:
+                break
+        if published is None:
+            continue
+        if published != fails:
+            bad_acc = bad_acc or (p, fails, published)
+    if bad_acc:
+        ctx.violated("R2", C, jm.where(obj_try), "on the path [%s] the objective failed transiently %d time(s) but %d failed design(s) are in problem.failed when evaluate() is left: "
+                     "a failed design vector is lost (or recorded twice)" % (bad_acc[0].describe(8), bad_acc[1], bad_acc[2]), key="failed-accounting")
+    elif n_acc:
+        ctx.holds("R2", C, jm.where(obj_try), "on all %d paths with transient failures every failure has exactly one entry in problem.failed when evaluate() is left" % n_acc, key="failed-accounting")
 
     # ---------------------------------------------------------------- R3
     ok_r3 = True
